@@ -32,6 +32,8 @@ fns!(f0 = 0, f1 = 1, f2 = 2, f3 = 3, f4 = 4, f5 = 5, f6 = 6, f7 = 7, f8 = 8, f9 
 const REGEXES: &[&str] = &[
     r"^a (\d+) b$", "a", r"^(?P<x>a+)(b)?", r"(á+)(?:c|(d))", r"^((a)|(b))+$",
     r"^x(?P<n>\d*)y(z)?$", ".*", "^$", "(?i)ABC", r"^(?P<w>\w+) (?P<v>\w+)?$", "b", r"(?:)",
+    // unanchored, with groups, matching at a byte offset > 0 (also behind multi-byte characters)
+    r"(\d+) (b)", r"(?P<n>\d+)y(z)?", r"(d|c)$", r"(b)(c)?$", r"(?P<t>l+)o( )",
 ];
 const TEXTS: &[&str] = &["a 12 b", "aab", "áád", "ab", "xy", "x12yz", "", "abc", "ABC", "b", "áác", "hello ", "a"];
 const LOCS: &[Option<Location>] = &[
